@@ -70,10 +70,12 @@ def run(chk):
     chk.sample(dict(case=cases[-4], impl=ci[-4], model=cm[-4]))
     # model-only sanity of rpc_size_outcome against the size rule (the end-to-end tie is the fabric run)
     chk.assumptions += [
-        "end-to-end confinement (error for that RPC only, connection stays usable) is exercised by the fabric runs of C02/C06; "
+        "end-to-end confinement (error for that RPC only, no hang, connection stays usable, follow-up RPC succeeds) is exercised by fabric runs with the four placements of the limit; "
         "the codec-level tie covers both directions of both message kinds",
         "tokio-util LengthDelimitedCodec is modelled (Wire.enc_frame/dec_frame, eff_max), tied by the executed correspondence",
     ]
+    import simnet
+    simnet.c15(chk)
     if not quick:
         ok, out = coqchk(chk.prop)
         chk.extra["coqchk"] = "ok" if ok else out[-500:]
